@@ -140,7 +140,7 @@ func TestVerifC09PruneCrashPrefixes(t *testing.T) {
 		nf := rapid.IntRange(1, h.Backups-1).Draw(t, "nforget")
 		perm := rapid.Permutation(vRange(h.Backups)).Draw(t, "forgetperm")
 		h.Forget = perm[:nf]
-		h.ForgetPrune = rapid.IntRange(0, 3).Draw(t, "forgetprune") == 0
+		h.ForgetPrune = rapid.IntRange(0, 2).Draw(t, "forgetprune") == 0
 		popts, optdesc := vPruneOptsC09(t)
 		if popts.RepackUncompressed && (e.gopts.Compression == repository.CompressionOff || h.Version == "1") {
 			popts.RepackUncompressed = false
@@ -226,6 +226,21 @@ func TestVerifC09PruneCrashPrefixes(t *testing.T) {
 		if len(log) > 0 {
 			k := rapid.IntRange(0, len(log)-1).Draw(t, "failAt")
 			mode := rapid.SampledFrom([]string{"failfrom", "failonce", "failafterapply", "cancel", "failone", "failone"}).Draw(t, "failmode")
+			if h.ForgetPrune && len(forgetIDs) >= 2 {
+				// forget --prune of several snapshots where the removal of exactly ONE snapshot file
+				// fails for good: that snapshot stays, so nothing it needs may be pruned
+				var snaprm []int
+				for i, op := range log {
+					if op.Key.Type == backend.SnapshotFile && op.Remove {
+						snaprm = append(snaprm, i)
+					}
+				}
+				if len(snaprm) > 0 && rapid.IntRange(0, 2).Draw(t, "failSnapRemove") > 0 {
+					mode = "failone"
+					k = snaprm[rapid.IntRange(0, len(snaprm)-1).Draw(t, "failSnapRemoveAt")]
+					st.Class("fault=failone-snapshot-remove")
+				}
+			}
 			fs := e.store.StateAt(0)
 			fe := e.OnStore(fs)
 			if mode == "failone" {
